@@ -92,7 +92,16 @@ EncoderOK(e) == \A i \in 1..Len(e.adsb) :
 (* [k |-> "none"], [k |-> "str", v], [k |-> "q", n, d] (rational), [k |-> "ang", n] (n/128 deg),                  *)
 (* [k |-> "trk", we, sn] (track of a velocity vector), [k |-> "any"] (not decidable by the model).                *)
 (* ------------------------------------------------------------------------------------------------------------ *)
-Fields == {"call", "gs", "trk", "roc", "alt", "tas", "roll", "rtrk", "trk50", "gs50", "ias", "hdg", "mach", "rb", "ri"}
+Fields == {"call", "gs", "trk", "roc", "alt", "tas", "roll", "rtrk", "trk50", "gs50", "ias", "hdg", "mach", "rb", "ri",
+           "ver", "nics", "nica", "nicbc", "nucp", "nic", "nucv", "nacv", "nacp"}
+\* the quality-indicator state: the ADS-B version heard in the last TC31 message decides how later position and velocity
+\* messages are read (NIC from the v1 or the v2 table, with the supplement bits remembered from TC31 / TC9-18 messages)
+IntState == {"ver", "nics", "nica", "nicbc", "nucp", "nic", "nucv", "nacv", "nacp"}
+Qi(n) == [k |-> "q", n |-> n, d |-> 1]
+NoneX == [k |-> "none"]
+AnyX == [k |-> "any"]
+FromRec(rec) == IF rec.t = "i" THEN Qi(rec.v) ELSE IF rec.t = "n" THEN NoneX ELSE AnyX
+ValOf(x) == IF x.k = "q" THEN x.n ELSE IF x.k = "none" THEN -1 ELSE -2          \* -1: None / never set, -2: unknown to the model
 AllOf(x) == [f \in Fields |-> x]
 Qx(q) == [k |-> "q", n |-> q[1], d |-> q[2]]
 QorNone(v) == IF v = NA THEN [k |-> "none"] ELSE [k |-> "q", n |-> v, d |-> 1]
@@ -114,6 +123,47 @@ AdsbContent(ex, f, posSet) ==
                                   ELSE LET d == DecodeAC12(MEField(f, 9, 20)) IN IF d = NoAlt THEN [k |-> "none"] ELSE [k |-> "q", n |-> d, d |-> 1]]
             ELSE e2
   IN  e3
+
+\* the "Uncertainty & accuracy" block at the end of the per-message loop (integer categories only; the radii are table look-ups)
+UncContent(ex, f) ==
+  LET tc == TypeCode(f)
+      e1 == IF tc >= 9 /\ tc <= 18 THEN [ex EXCEPT !.nicbc = Qi(MEBit(f, 8))] ELSE ex
+      ver == ValOf(e1.ver)  sv == ValOf(e1.nics)  na == ValOf(e1.nica)  nb == ValOf(e1.nicbc)
+      e2 == IF ~PosTC(f) THEN e1
+            ELSE LET a == [e1 EXCEPT !.nucp = Qi(NUCpOfTC(tc))] IN
+                 IF ver = -2 \/ (ver = 1 /\ sv = -2) \/ (ver = 2 /\ (na = -2 \/ nb = -2)) THEN [a EXCEPT !.nic = AnyX]
+                 ELSE IF ver = 1 /\ sv >= 0 THEN [a EXCEPT !.nic = Qi(NICv1OfTC(tc, sv))]
+                 ELSE IF ver = 2 /\ na >= 0 /\ nb >= 0 THEN
+                      LET sup == IF tc >= 20 THEN 0 ELSE 2 * na + nb
+                          n == NICv2OfTC(tc, sup)
+                          rc == IF n = -1 THEN -1 ELSE NICv2Rc(n, sup)
+                      IN  [a EXCEPT !.nic = IF rc = -1 THEN NoneX ELSE Qi(n)]
+                 ELSE a
+      e3 == IF tc = 19 THEN
+               LET b == [e2 EXCEPT !.nucv = Qi(NUCv(f))] IN
+               IF ver = -2 THEN [b EXCEPT !.nacv = AnyX] ELSE IF ver \in {1, 2} THEN [b EXCEPT !.nacv = Qi(NUCv(f))] ELSE b
+            ELSE e2
+      e4 == IF tc = 29 THEN [e3 EXCEPT !.nacp = Qi(MEField(f, 40, 43))] ELSE e3
+      e5 == IF tc = 31 THEN
+               LET v == Version31(f)
+                   c == [e4 EXCEPT !.ver = Qi(v), !.nacp = Qi(MEField(f, 45, 48))]
+               IN  IF v = 1 THEN [c EXCEPT !.nics = Qi(MEBit(f, 44))]
+                   ELSE IF v = 2 THEN [c EXCEPT !.nica = Qi(MEBit(f, 44)), !.nicbc = Qi(MEBit(f, 20))] ELSE c
+            ELSE e4
+  IN  e5
+
+\* is that block reached for message m?  The loop `continue`s before it when the velocity of a TC5-8 / TC19 message is unusable
+\* and when the global decode of a stored pair raises (mixed surface / airborne pair, surface pair without receiver position)
+Reached(m, f, tb, ntb) ==
+  LET tc == TypeCode(f)
+      ent0 == IF m.addr \in DOMAIN tb THEN tb[m.addr] ELSE FreshEntry
+      refOK == ent0.hasPos /\ m.t - ent0.tpos < 360
+      en == ntb[m.addr]
+  IN  IF tc = 19 THEN Subtype19(f) \in {1, 2} /\ VelV1(f) # 0 /\ VelV2(f) # 0
+      ELSE IF m.cls \in {"air", "surf"} THEN
+           /\ ~m.skip
+           /\ ~(~refOK /\ en.e.has /\ en.o.has /\ Abs(en.e.t - en.o.t) < 20 /\ (en.e.cls # en.o.cls \/ (en.e.cls = "surf" /\ ~rx[1])))
+      ELSE TRUE
 
 \* a value is stored only when it is "truthy" (not None and not zero)
 SetIfTruthy(ex, fld, q) == IF q = NAq \/ q[1] = 0 THEN ex ELSE [ex EXCEPT ![fld] = Qx(q)]
@@ -139,14 +189,15 @@ ContentAfter(e, aa, cc) ==
                  ntb == ApplyAdsb(tb, m, rx)
                  ex0 == IF m.addr \in DOMAIN ex THEN ex[m.addr] ELSE AllOf([k |-> "none"])
                  posSet == m.cls \in {"air", "surf"} /\ ~m.skip /\ ntb[m.addr].hasPos /\ ntb[m.addr].tpos = m.t /\ ntb[m.addr].pk # ""
-                 nex == (m.addr :> AdsbContent(ex0, e.adsb[k].f, posSet)) @@ ex
+                 ex1 == AdsbContent(ex0, e.adsb[k].f, posSet)
+                 nex == (m.addr :> (IF Reached(m, e.adsb[k].f, tb, ntb) THEN UncContent(ex1, e.adsb[k].f) ELSE ex1)) @@ ex
              IN  A(k + 1, ntb, nex)
       RECURSIVE C(_, _)
       C(k, ex) ==
         IF k > Len(cc) THEN ex
         ELSE LET m == cc[k] IN
              IF m.addr \in DOMAIN ex THEN C(k + 1, (m.addr :> CommBContent(ex[m.addr], e.commb[k].f)) @@ ex) ELSE C(k + 1, ex)
-      start == [a \in DOMAIN tab |-> AllOf([k |-> "keep"])]
+      start == [a \in DOMAIN tab |-> [fl \in Fields |-> IF fl \in IntState /\ a \in DOMAIN cont THEN FromRec(cont[a][fl]) ELSE [k |-> "keep"]]]
       r == A(1, tab, start)
   IN  C(1, r[2])
 
